@@ -30,6 +30,7 @@ import (
 	"log/slog"
 	"os"
 	"runtime"
+	"strconv"
 	"sync"
 	"sync/atomic"
 	"syscall"
@@ -239,7 +240,7 @@ func lsDoLog(n *lsNode, op *lsOp) {
 	as := drvBuildAttrs(op.Attrs)
 	switch op.Via {
 	case "handle":
-		r := slog.NewRecord(deriveTime, lv, op.msg, 0)
+		r := slog.NewRecord(deriveTime.Add(time.Duration(op.Rid%3)*time.Second), lv, op.msg, 0) // records of neighbouring seconds meet in one run
 		r.AddAttrs(as...)
 		n.h.Handle(ctx, r)
 	case "log":
@@ -659,10 +660,85 @@ func runLogSys(cfg Cfg) {
 			s.Sample(map[string]any{"kind": sys.Kind, "threshold": sys.Threshold, "goroutines": len(sys.Programs), "first_op": sys.Programs[0][0]})
 		}
 	}
+	lsTimeHammer(s, cfg)
 	s.Traces = nSys
 	s.Notes = append(s.Notes,
 		"time fields are canonicalised on both sides (Logger methods stamp time.Now())",
 		"Handler.Handle has no level gate of its own; records below the threshold are logged through Logger methods only",
 		"Fatal* are not called (they exit by contract); Panic/Panicf are called and recovered; every 7th system has a destination that fails every 4th Write, every 7th one whose 4th Write panics (recovered by the caller), every 5th a destination taking at most 96 bytes per call; one record in nine is logged with an already cancelled context",
 		"thorough runs the systems under GOMAXPROCS 1, 4, 16 and the default in turn; VERIF_RACE=1 builds the harness with -race")
+}
+
+type lsLineSink struct {
+	mu    sync.Mutex
+	lines map[string]int
+}
+
+func (k *lsLineSink) Write(p []byte) (int, error) {
+	k.mu.Lock()
+	k.lines[string(p)]++
+	k.mu.Unlock()
+	return len(p), nil
+}
+
+// lsTimeHammer: 16 goroutines log, through the root and a derived handler, two kinds of records that differ
+// in their second (…:59 and …:00 of the next minute) as fast as they can. Every line written is one of the two
+// lines the same records give when logged alone - whatever the handlers remember between records.
+func lsTimeHammer(s *Stream, cfg Cfg) {
+	t0 := time.Date(2024, 5, 6, 7, 8, 59, 0, time.UTC)
+	times := [2]time.Time{t0, t0.Add(time.Second).In(time.FixedZone("", 3600))}
+	for _, kind := range deriveKinds {
+		mk := func(w io.Writer) logger.Handler {
+			opts := logger.NewOptions(logger.LevelDebug, false, false)
+			switch kind {
+			case "json":
+				return logger.NewJsonHandler(w, opts)
+			case "text":
+				return logger.NewTextHandler(w, opts)
+			}
+			return logger.NewNanoHandler(w, opts)
+		}
+		rec := func(par int) slog.Record {
+			r := slog.NewRecord(times[par], slog.LevelInfo, "PARITY"+strconv.Itoa(par), 0)
+			r.AddAttrs(slog.Int("p", par))
+			return r
+		}
+		// alone
+		alone := &lsLineSink{lines: map[string]int{}}
+		ha := mk(alone)
+		hb := ha.WithAttrs([]slog.Attr{slog.String("d", "x")})
+		for par := 0; par < 2; par++ {
+			ha.Handle(context.Background(), rec(par))
+			hb.Handle(context.Background(), rec(par))
+		}
+		// together
+		sink := &lsLineSink{lines: map[string]int{}}
+		root := mk(sink)
+		der := root.WithAttrs([]slog.Attr{slog.String("d", "x")})
+		n := cfg.N(1500, 20000)
+		var wg sync.WaitGroup
+		for g := 0; g < 16; g++ {
+			wg.Add(1)
+			go func(g int) {
+				defer wg.Done()
+				h := root
+				if g%4 >= 2 {
+					h = der
+				}
+				for i := 0; i < n; i++ {
+					h.Handle(context.Background(), rec(g%2))
+				}
+			}(g)
+		}
+		wg.Wait()
+		for line, cnt := range sink.lines {
+			if alone.lines[line] == 0 {
+				s.Violate("not-the-line-logged-alone", fmt.Sprintf("%s handler, 16 goroutines logging records of two neighbouring seconds: %d lines read %q, which is none of the lines these records give when logged alone", kind, cnt, line),
+					map[string]any{"kind": kind, "lines_alone": alone.lines})
+				break
+			}
+		}
+		s.Evaluations += 16 * n
+		s.Count("time-hammer." + kind)
+	}
 }
